@@ -22,6 +22,9 @@ pub const ALPHABET: [char; 14] = ['+', '-', '#', 'x', 'o', 'b', '0', '1', '8', '
 pub const TOKEN_LABELS: &[&str] = &[
     "a", "g", "ag", "_", "r", "r8", "xg", "b8", "o8", "o", "x", "b", "a1", "ga", "_1", "a_", "gg", "rr", "bb", "oo", "x_", "b_", "o_", "r_1",
     "a0", "g8", "bag", "xag", "bar", "gab", "R00", "xo", "og", "__", "r10", "r1_", "r0_a", "R7_SAVE",
+    // names the assembler accepts as labels and the command grammar reads as integers (binary,
+    // octal): in a command they are the integer, never the label
+    "b10", "b1", "b0", "b11", "o1", "o10", "o0", "b01",
 ];
 
 fn token_program() -> (String, Vec<(String, u16)>) {
@@ -802,7 +805,7 @@ impl Prop for C14 {
         "C14"
     }
     fn rule(&self) -> &'static str {
-        "(a) ALL argument strings of length <= 4 (quick) / <= 5 (thorough) over the alphabet {+ - # x o b 0 1 8 a g ^ r _}, each used as `move r1 <t>` (value) and `goto <t>` (location), and up to length 3 also as `break add <t>`, against a program at origin 0 that defines 35 labels colliding with tricky spellings (xg, b8, o, x, r8, R00, _, ...); plus generated longer tokens: numbers at the i16/u16/i32 edges (and beyond 2^32) in every radix and sign position with leading zeros, label+-offset, ^offset, multi-byte characters. \
+        "(a) ALL argument strings of length <= 4 (quick) / <= 5 (thorough) over the alphabet {+ - # x o b 0 1 8 a g ^ r _}, each used as `move r1 <t>` (value) and `goto <t>` (location), and up to length 3 also as `break add <t>`, against a program at origin 0 that defines 46 labels colliding with tricky spellings (xg, b8, o, x, r8, R00, _, ... and b10, b1, o10, ... which the assembler accepts as labels while the command grammar reads them as binary / octal integers); plus generated longer tokens: numbers at the i16/u16/i32 edges (and beyond 2^32) in every radix and sign position with leading zeros, label+-offset, ^offset, multi-byte characters. \
          Oracle RefCmd (doc comment of the integer parser, NaiveType table, help.txt): value accepted <=> documented integer in [-32768, 65535], R1 = v mod 2^16; location => PC / breakpoint list equals the resolved address; everything else => an error is reported and nothing changes; never a panic; every batch is run a second time in the normal (non-minimal) output mode, where errors are rendered in full: no panic, same final machine state. Generated tokens include long ones with a multi-byte character around byte offsets 32 / 64 / 128 / 256. \
          (b) every command name, alias and listed misspelling (one- and two-word forms) in 3 random letter cases: alias => transcript, output, exit and final state identical to the canonical name in a fixed scenario; misspelling => CommandError and no effect. `print` without argument = `print ^`. \
          (c) generated scripts of 1-8 commands delivered through --command, through stdin, or split at every point, with `;` or newline as separator, empty commands and surrounding blanks: stdout, stderr, exit status and final state identical to the plain delivery (in-process through the real CommandReader, plus a sample through the real binary with a pipe as stdin, plus a sample typed key by key at a pseudo-terminal - one command per line, `;`-joined on a line, or with a `;` left at the end of a line - where the debugger's output with the prompt drawing removed must equal that of the plain delivery). \
